@@ -482,6 +482,17 @@ class HistRun:
             op = q.pop(0)
             op["salt"] = r.getrandbits(32)
             return op
+        if self.prop in ("C14", "C17", "C02") and r.random() < 0.1:
+            # a report that renders a member in a non-trivial way (partial retrieval, expansion of
+            # recurrences), immediately followed by a re-upload / re-read of that member
+            cands = [(c, n) for c in self.store_colls(("calendar",)) for n, mm in sorted(c.members.items()) if mm.served and n.endswith(".ics")]
+            rec = [(c, n) for (c, n) in cands if b"RRULE" in c.members[n].served]
+            if cands:
+                c, n = r.choice(rec or cands)
+                follow = {"op": "reupload", "path": c.path + n} if self.prop == "C14" else {"op": "report", "report": "multiget", "coll": c.path, "hrefs": [{"rel": c.path + n}]}
+                self.queue = [follow]
+                return {"op": "report", "report": "partial", "coll": c.path, "kind": r.choice(["multiget", "query"]), "mode": "expand" if (rec and r.random() < 0.7) else r.choice(["props", "expand"]),
+                        "names": [n], "salt": r.getrandbits(32)}
         if self.prop == "C06" and r.random() < 0.08:
             # a member is deleted and comes back byte-identical; its UID must be taken again
             cands = [(c, n) for c in self.store_colls(("calendar",)) for n, mm in sorted(c.members.items()) if mm.uid and mm.served and n.endswith(".ics")]
